@@ -71,6 +71,7 @@ func (t *timeResult) String() string {
 }
 
 func (t timeResult) worstCaseDrift() time.Duration {
+	const maxDuration = time.Duration(1<<63 - 1)
 	// The worst-case drift is the difference between local time when
 	// starting the measurement and remote time plus however long the
 	// measurement itself took.
@@ -78,8 +79,17 @@ func (t timeResult) worstCaseDrift() time.Duration {
 	if drift < 0 {
 		drift = -drift
 	}
-	drift += t.End.Sub(t.Start)
-	return drift
+	if drift < 0 {
+		// time.Time.Sub saturated at the minimum duration (the clocks are
+		// centuries apart), which cannot be negated.
+		return maxDuration
+	}
+	measurement := t.End.Sub(t.Start)
+	if measurement > 0 && drift > maxDuration-measurement {
+		// Do not let the sum wrap around to a negative (i.e. small) drift.
+		return maxDuration
+	}
+	return drift + measurement
 }
 
 func getServerTime(server, networkPassword string) (timeResult, health.ServerStatus, error) {
